@@ -39,12 +39,12 @@ type schemaRule struct {
 }
 
 type c16Plan struct {
-	Mode   string       `json:"mode"` // pickle | grafananet
-	Lines  []string     `json:"lines_head"`
-	N      int          `json:"lines"`
-	Rules  []schemaRule `json:"schemas,omitempty"`
-	OrgID  int          `json:"orgId,omitempty"`
-	IOBuf  int          `json:"iobuf,omitempty"`
+	Mode  string       `json:"mode"` // pickle | grafananet
+	Lines []string     `json:"lines_head"`
+	N     int          `json:"lines"`
+	Rules []schemaRule `json:"schemas,omitempty"`
+	OrgID int          `json:"orgId,omitempty"`
+	IOBuf int          `json:"iobuf,omitempty"`
 }
 
 var c16Vals = []string{"1", "0", "-1.5", "1e3", "+5", ".5", "0x1p-2", "NaN", "Inf", "-Inf", "1e400", "123456789.125", "1.", "5e-324", "1_0", "x", "0x10"}
